@@ -1,6 +1,8 @@
 ---------------------------- MODULE MC_Retry ----------------------------
 EXTENDS Retry, Json
-MCCfgSet == {cf \in [max : {0, 1, 2, 3}, perReq : {0, 1}, pred : {"all", "noe2"}, bo : {"fixed", "exp"}, b0 : {1, 2}, cap : {4}, budget : {0 - 1, 0, 1, 2}, bmax : {2}] :
+MCCfgSet == {cf \in [max : {0, 1, 2, 3}, perReq : {0, 1}, pred : {"all", "noe2"}, bo : {"fixed", "exp"}, b0 : {1, 2}, cap : {4}, budget : {0 - 1, 0, 1, 2}, bmax : {2},
+                    btype : {"tb", "aimd"}, bmin : {1}, cost : {1, 2}, amount : {1}, fnum : {2}] :
+              /\ (cf.btype = "tb" => cf.cost = 1) /\ (cf.btype = "aimd" => cf.budget = cf.bmax /\ cf.perReq = 0 /\ cf.pred = "all")
               /\ (cf.perReq = 1 => cf.max = 3) /\ (cf.bo = "fixed" => cf.b0 = 2) /\ (cf.bo = "exp" => cf.b0 = 1)}
 MCCfgSetQ == {cf \in MCCfgSet : cf.perReq = 0 /\ (cf.pred = "noe2" => cf.budget = 0 - 1)}
 MCOuts == {"ok", "e1", "e2"}
